@@ -6,6 +6,8 @@ use crate::prop::Prop;
 use crate::tape::{Tape, TapeData};
 
 const BUDGET: usize = 400;
+/// wall-clock cap per minimisation (heavy multi-run cases)
+const TIME_CAP: std::time::Duration = std::time::Duration::from_secs(4);
 
 fn still_fails(prop: &dyn Prop, idx: u64, t: &TapeData, sig: &str) -> bool {
     let (out, _) = prop.run_case(idx, Tape::replay(t.clone()), false);
@@ -15,7 +17,11 @@ fn still_fails(prop: &dyn Prop, idx: u64, t: &TapeData, sig: &str) -> bool {
 pub fn shrink(prop: &dyn Prop, idx: u64, tape: &TapeData, sig: &str) -> TapeData {
     let mut best = tape.clone();
     let mut budget = BUDGET;
+    let started = std::time::Instant::now();
     let mut try_it = |cand: TapeData, best: &mut TapeData, budget: &mut usize| -> bool {
+        if started.elapsed() > TIME_CAP {
+            *budget = 0;
+        }
         if *budget == 0 || cand == *best {
             return false;
         }
